@@ -19,12 +19,12 @@ seeds = []
 for m in sorted((ROOT / "seeded").glob("*/meta.json")):
     seeds.append(json.loads(m.read_text()))
 lines += ["### 7.1 Independently written breaking changes (`seeded/`)", "",
-          "Six rounds of 20 (one per property and round: `seed-Cxx` ... `seed6-Cxx`), written by fresh sub-agents that were given",
+          "Six rounds of 20 (one per property and round: `seed-Cxx` ... `seed6-Cxx`) and a seventh of 8 (`seed7-Cxx`, the scenario-level properties C01 C03 C08 C09 C10 C11 C15 C19), written by fresh sub-agents that were given",
           "only the property text and a scratch worktree (nothing from `/verif`); later rounds were told what the earlier rounds had changed",
           "and asked for a different function and a different clause.  Each was confirmed here (demo passes on the unchanged tree, fails with",
           "the patch, repository tests of the touched area still pass) before being kept.  'caught by' = quick checks that report a VIOLATION",
-          "with the patch applied.  Of the 120, the checks as they stood at the time reported 72; the others (history column) each led to an",
-          "extension of a generator or an oracle, after which 119 are reported and one (seed4-C03) is explained as out of reach.  Patches whose context was changed by a later repair of",
+          "with the patch applied.  Of the 128, the checks as they stood at the time reported 78; the others (history column) each led to an",
+          "extension of a generator or an oracle, after which 127 are reported and one (seed4-C03) is explained as out of reach.  Patches whose context was changed by a later repair of",
           "`/repo` were rebased with `git apply --3way` (original kept as `patch.orig.diff`).", "",
           "| seed | breaks | needs, in order to manifest | caught by (s) | not caught by | history |", "|---|---|---|---|---|---|"]
 for m in seeds:
